@@ -55,6 +55,7 @@ class _Tunnel(Interface):
     """Class for handling KNX/IP tunnels."""
 
     __slots__ = (
+        "_closing",
         "_data_endpoint_addr",
         "_heartbeat",
         "_reconnect_task",
@@ -99,6 +100,8 @@ class _Tunnel(Interface):
         self._requested_address: IndividualAddress | None = None
         self._src_address = IndividualAddress(0)
         self._send_lock = asyncio.Lock()
+        # set while the user disconnects - a tunnel lost meanwhile shall not reconnect
+        self._closing = False
 
         self._init_transport()
         self.transport.register_callback(
@@ -165,6 +168,8 @@ class _Tunnel(Interface):
 
     def _tunnel_lost(self) -> None:
         """Prepare for reconnection or shutdown when the connection is lost. Callback."""
+        if self._closing:
+            return
         if self.auto_reconnect:
             # _tunnel_lost might be called multiple times when the transport receives
             # multiple invalid frames - ensure only one reconnect task is started
@@ -232,12 +237,14 @@ class _Tunnel(Interface):
 
     async def disconnect(self) -> None:
         """Disconnect tunneling connection."""
+        self._closing = True
         self._prepare_disconnect()
         self._stop_reconnect()
         try:
             await self._disconnect_request()
         finally:
             self.transport.stop()
+            self._closing = False
 
     ####################
     #
